@@ -42,7 +42,7 @@ func addNeighbours(p *probeSet, id int64, why string) {
 func C04(run *hx.Run) {
 	run.Rule = "for every rowid table of every generated database: SelectRowid / Table.Rowid (and PKSelect on INTEGER PRIMARY KEY tables) for every present rowid (sampled above 4000 rows in quick tier), both neighbours of each, int64 min/max/0/-1, every interior-page separator key +-1 and the first/last rowid of every leaf +-1 (located by an independent page walker); expected = the row SQLite reports for that rowid, or no row and no error. distinct = distinct (database, table, rowid) probes; all probes are non-trivial (each forces a full descent)"
 	run.Assumptions = append(stdAssumptions, "the page walker only chooses probe rowids; it is not an oracle")
-	profiles := hx.Profiles(run.Tier, run.Seed)
+	profiles := hx.ProfilesReps(run.Tier, run.Seed, 8)
 	forEachProfile(run, profiles, func(w *worker, d *hx.DB, idx int) {
 		rng := rand.New(rand.NewSource(run.Seed*733 + int64(idx)))
 		data, err := os.ReadFile(d.Path) // before any sqlittle handle exists
